@@ -1,5 +1,6 @@
 //! Brute-force reference semantics over bitmasks (n <= 20), written from the
-//! textbook definitions. Shares nothing with crustabri.
+//! textbook definitions, and a backtracking reference for 14-26 arguments (`Fams::new_medium`)
+//! that is itself compared with the brute force at every start-up. Shares nothing with crustabri.
 
 #[derive(Clone, Debug)]
 pub struct G {
@@ -40,7 +41,7 @@ impl Sem {
 
 impl G {
     pub fn new(n: usize, att: &[(usize, usize)]) -> G {
-        assert!(n <= 20);
+        assert!(n <= 30);
         let mut attackers = vec![0u32; n];
         let mut targets = vec![0u32; n];
         for &(a, b) in att {
@@ -242,6 +243,186 @@ impl Fams {
             Sem::ID => vec![self.id],
         }
     }
+}
+
+/// Above this many complete extensions or maximal conflict-free sets a medium-size graph is not judged.
+pub const MEDIUM_FAMILY_LIMIT: usize = 6_000;
+
+impl G {
+    /// All complete extensions by backtracking over IN / NOT-IN decisions with the propagation every
+    /// complete extension obeys (an argument whose attackers are all attacked is in; attackers and targets
+    /// of members are out; every attacker of a member needs a possible attacker). Each leaf is re-checked
+    /// against the definition, so pruning can only lose extensions, never invent one; the start-up self-test
+    /// compares the result with the brute force. None when more than `limit` extensions exist.
+    pub fn complete_extensions(&self, limit: usize) -> Option<Vec<u32>> {
+        fn rec(g: &G, mut inn: u32, notin: u32, out: &mut Vec<u32>, limit: usize) -> bool {
+            let full = g.full();
+            let mut notin = notin;
+            loop {
+                let attacked = g.targets_of(inn);
+                if inn & attacked != 0 || inn & notin != 0 {
+                    return true;
+                }
+                notin |= attacked | g.attackers_of(inn);
+                if inn & notin != 0 {
+                    return true;
+                }
+                let mut forced = 0u32;
+                for a in 0..g.n {
+                    if inn & (1 << a) == 0 && g.attackers[a] & !attacked == 0 {
+                        forced |= 1 << a;
+                    }
+                }
+                if forced & notin != 0 {
+                    return true;
+                }
+                if forced == 0 {
+                    break;
+                }
+                inn |= forced;
+            }
+            let attacked = g.targets_of(inn);
+            let mut need = g.attackers_of(inn) & !attacked;
+            while need != 0 {
+                let b = need.trailing_zeros() as usize;
+                if g.attackers[b] & !notin == 0 {
+                    return true;
+                }
+                need &= need - 1;
+            }
+            let und = full & !(inn | notin);
+            if und == 0 {
+                if g.complete(inn) {
+                    out.push(inn);
+                    if out.len() > limit {
+                        return false;
+                    }
+                }
+                return true;
+            }
+            let a = 1u32 << und.trailing_zeros();
+            rec(g, inn | a, notin, out, limit) && rec(g, inn, notin | a, out, limit)
+        }
+        let mut out = vec![];
+        if rec(self, 0, 0, &mut out, limit) {
+            out.sort();
+            out.dedup();
+            Some(out)
+        } else {
+            None
+        }
+    }
+
+    /// All maximal conflict-free sets (Bron-Kerbosch on the compatibility relation). None above `limit`.
+    pub fn naive_sets(&self, limit: usize) -> Option<Vec<u32>> {
+        let selfless: u32 = (0..self.n).filter(|a| self.targets[*a] & (1 << a) == 0).fold(0, |m, a| m | (1 << a));
+        // compatible[a]: arguments that can sit with a in a conflict-free set
+        let compat: Vec<u32> = (0..self.n).map(|a| selfless & !(self.targets[a] | self.attackers[a] | (1 << a))).collect();
+        fn bk(compat: &[u32], r: u32, mut p: u32, mut x: u32, out: &mut Vec<u32>, limit: usize) -> bool {
+            if p == 0 {
+                if x == 0 {
+                    out.push(r);
+                    if out.len() > limit {
+                        return false;
+                    }
+                }
+                return true;
+            }
+            while p != 0 {
+                let v = p.trailing_zeros() as usize;
+                let bit = 1u32 << v;
+                if !bk(compat, r | bit, p & compat[v], x & compat[v], out, limit) {
+                    return false;
+                }
+                p &= !bit;
+                x |= bit;
+            }
+            true
+        }
+        let mut out = vec![];
+        if bk(&compat, 0, selfless, 0, &mut out, limit) {
+            out.sort();
+            Some(out)
+        } else {
+            None
+        }
+    }
+}
+
+impl Fams {
+    /// The families of a graph of up to 30 arguments without enumerating its subsets; `cf` and `adm` are
+    /// left empty (they are only used for classification and for C18's bounds on small graphs). None when
+    /// the graph has more complete extensions or maximal conflict-free sets than `MEDIUM_FAMILY_LIMIT`.
+    pub fn new_medium(g: &G) -> Option<Fams> {
+        let co = g.complete_extensions(MEDIUM_FAMILY_LIMIT)?;
+        let naive = g.naive_sets(MEDIUM_FAMILY_LIMIT)?;
+        let st: Vec<u32> = co.iter().copied().filter(|&s| g.range(s) == g.full()).collect();
+        let pr = g.maximal_by(&co, |s| s);
+        let sst = g.maximal_by(&co, |s| g.range(s));
+        // a conflict-free set that is not maximal has a strictly smaller range than any conflict-free
+        // superset (the added member is not attacked by the set), so stage extensions are naive sets
+        let stg = g.maximal_by(&naive, |s| g.range(s));
+        // the ideal extension: the greatest self-defending subset of the intersection of the preferred ones
+        let mut id = pr.iter().fold(g.full(), |a, b| a & b);
+        loop {
+            let t = g.targets_of(id);
+            let keep = (0..g.n).filter(|a| id & (1 << a) != 0 && g.attackers[*a] & !t == 0).fold(0u32, |m, a| m | (1 << a));
+            if keep == id {
+                break;
+            }
+            id = keep;
+        }
+        Some(Fams { cf: vec![], adm: vec![], co, st, pr, sst, stg, gr: g.grounded(), id })
+    }
+}
+
+/// `new_medium` against the brute force: all digraphs on <= 3 arguments and a fixed pseudo-random sample of
+/// 3000 graphs on 4-12 arguments of varying density (with self-attacks).
+pub fn self_test_medium() -> Result<usize, String> {
+    let mut graphs: Vec<(usize, Vec<(usize, usize)>)> = vec![];
+    for n in 0..=3usize {
+        let pairs: Vec<(usize, usize)> = (0..n).flat_map(|a| (0..n).map(move |b| (a, b))).collect();
+        for m in 0u32..(1u32 << pairs.len()) {
+            graphs.push((n, pairs.iter().enumerate().filter(|(i, _)| m & (1 << i) != 0).map(|(_, p)| *p).collect()));
+        }
+    }
+    let mut z: u64 = 0x0DDB_1A5E_5BAD_5EED;
+    let mut next = move || {
+        z ^= z << 13;
+        z ^= z >> 7;
+        z ^= z << 17;
+        z
+    };
+    for _ in 0..3000 {
+        let n = 4 + (next() % 9) as usize;
+        let dens = 1 + next() % 5;
+        let mut att = vec![];
+        for a in 0..n {
+            for b in 0..n {
+                let r = next() % (2 * n as u64);
+                if r < dens && (a != b || next() % 3 == 0) {
+                    att.push((a, b));
+                }
+            }
+        }
+        graphs.push((n, att));
+    }
+    let mut checked = 0;
+    for (n, att) in graphs {
+        let g = G::new(n, &att);
+        let b = Fams::new(&g);
+        let m = Fams::new_medium(&g).ok_or_else(|| format!("family limit hit on n={} att={:?}", n, att))?;
+        for sem in ALL_SEMS {
+            let (mut x, mut y) = (b.exts(sem), m.exts(sem));
+            x.sort();
+            y.sort();
+            if x != y {
+                return Err(format!("{} on n={} att={:?}: brute force {:?}, backtracking {:?}", sem.name(), n, att, x, y));
+            }
+        }
+        checked += 1;
+    }
+    Ok(checked)
 }
 
 pub fn dc(exts: &[u32], mask: u32) -> bool {
